@@ -367,7 +367,7 @@ func pow10(k int) float64 { return math.Pow(10, float64(k)) }
 // genSet: a seeded real point set; family and parameters are functions of (seed, id).
 func genSet(sd int64, id int) (fam, param string, pts []v2.Vec) {
 	rng := rand.New(rand.NewSource(sd*1000003 + int64(id)*7919 + 17))
-	fams := []string{"uniform", "cluster", "hull", "ring", "wide", "offset"}
+	fams := []string{"uniform", "cluster", "hull", "ring", "wide", "offset", "quadrant"}
 	fam = fams[id%len(fams)]
 	sizes := []int{10, 17, 30, 60, 120, 300}
 	n := sizes[(id/len(fams))%len(sizes)]
@@ -441,6 +441,31 @@ func genSet(sd int64, id int) (fam, param string, pts []v2.Vec) {
 			add(asp*rng.Float64(), rng.Float64())
 		}
 		param = fmt.Sprintf("scale=%g aspect=%g", scale, asp)
+	case "quadrant":
+		// one corner of the bounding box at (or within a per cent of the extent of) the origin: the whole set in
+		// one quadrant, touching the axes (anything sized from a coordinate instead of the extent shows here)
+		raw := make([][2]float64, n)
+		lo, hi := [2]float64{1, 1}, [2]float64{0, 0}
+		for i := range raw {
+			raw[i] = [2]float64{rng.Float64(), rng.Float64()}
+			for k := 0; k < 2; k++ {
+				lo[k] = math.Min(lo[k], raw[i][k])
+				hi[k] = math.Max(hi[k], raw[i][k])
+			}
+		}
+		corner := rng.Intn(4)
+		eps := []float64{0, 0, 0.003, -0.003, 0.01}[rng.Intn(5)]
+		ox, oy := lo[0], lo[1]
+		if corner&1 == 1 {
+			ox = hi[0]
+		}
+		if corner&2 == 2 {
+			oy = hi[1]
+		}
+		for _, q := range raw {
+			add(q[0]-ox+eps, q[1]-oy+eps)
+		}
+		param = fmt.Sprintf("scale=%g corner=%d eps=%g", scale, corner, eps)
 	default: // offset: the set is far from the origin relative to its size
 		off := pow10(1 + rng.Intn(3))
 		cx, cy = scale*off*(1+rng.Float64()), -scale*off*(1+rng.Float64())
